@@ -159,7 +159,7 @@ def run(ck, w):
         okk = True
         for c in rules.creators_of(db, DEL_BLOCK):
             orig = flow.origins_x(lib, db, c.args[1], through_calls=[
-                r"collect_vec$", r"Iterator::next$", r"IntoIterator>?::into_iter$", r"Iterator::collect$"])
+                r"collect_vec$", r"Iterator::next$", r"IntoIterator>?::into_iter$", r"Iterator::(collect|cloned|copied)$", r"<impl \[T\]>::iter$"])
             calls = flow.origin_calls(orig)
             if calls != {"std::collections::HashSet::<T, S, A>::difference"}:
                 okk = False
